@@ -40,6 +40,18 @@ def numbers():
     return "\n".join(out)
 
 
+def perprop():
+    import importlib.util
+    spec = importlib.util.spec_from_file_location("mg", os.path.join(ROOT, "verif", "manifest_gen.py"))
+    sys.path.insert(0, ROOT)
+    from verif import manifest_gen as mg
+    out = []
+    for pid in sorted(mg.CHECKS):
+        c = mg.CHECKS[pid]
+        out.append(f"**{pid}** ({c['level']}). *Technique:* {c['technique']}. *What is explored and bound:* {c['text']} *Trusted / not covered:* {c.get('note', '')}\n")
+    return "\n".join(out)
+
+
 def benign():
     rows = []
     for d in sorted(glob.glob(os.path.join(ROOT, "seeded", "benign-*")), key=lambda x: int(x.rsplit("-", 1)[1])):
